@@ -258,13 +258,24 @@ Fixpoint zlist_eqb (a b : list Z) : bool :=
   | _, _ => false
   end.
 
+(* a result encoding that starts with 7, 1 is an exception of the LINKING kind raised on a valid input: NameError,
+   UnboundLocalError, AttributeError, or a TypeError whose message is an arity / keyword mismatch
+   (the property: no code path can fail with NameError, AttributeError or an arity TypeError) *)
+Definition link_exc (r : list Z) : bool :=
+  match r with
+  | 7%Z :: 1%Z :: _ => true
+  | _ => false
+  end.
+
 (* the boolean predicate of the dynamic part: 0 = holds; 20 + tag = the call with that re-presentation
-   modified an argument or a default; tag = its result differs from the base result *)
+   modified an argument or a default; 40 + tag = it raised a linking-kind exception;
+   tag = its result differs from the base result *)
 Fixpoint dyn_first_bad (r0 : list Z) (runs : list (nat * bool * list Z)) : nat :=
   match runs with
   | [] => 0
   | (t, unchanged, r) :: rest =>
       if negb unchanged then 20 + t
+      else if link_exc r then 40 + t
       else if negb (zlist_eqb r r0) then (if Nat.eqb t 0 then 19 else t)
       else dyn_first_bad r0 rest
   end.
